@@ -147,3 +147,35 @@ Theorem C06_policy_panic :
     (exists tl : list (Ctx.ctx Expr.expr), fst (fst (Go.ctxs_of_input cf fname evs)) = (pre ++ tl)%list).
 Proof. exact go_run_panic. Qed.
 Print Assumptions C06_policy_panic.
+
+(* several inputs: the policy theorem for ANY list of inputs *)
+From Jawk Require Import Base F64 Json Reader JsonParser Ctx Printer Fn Expr Chain ExprParser Go GoProofs LocalityProofs FilesProofs PolicyFilesProofs.
+
+(* every policy but panic, any list of inputs, a pipeline that never stops the reader: success, and the events are the header followed by an interleaving of the rows of the chain over the values of all inputs with one diagnostic per malformed region of any input *)
+Theorem C06_policy_files :
+  forall (cf : cfg) (ins : list (option str * list ev)) (b : bool) (p : printer)
+      (sts : list stage) (hdr : list byte),
+    c_on_error cf <> OnPanic ->
+    Forall (fun i : option str * list ev => Forall (fun e : ev => e <> EErr) (snd i)) ins ->
+    build_pipeline cf = Some (p, sts) ->
+    start_output p (titles expr sts []) (c_rowsep cf) = Some hdr ->
+    (forall (ss : list sstate) (c : ctx), snd (process expr get sts ss c) = Continue) ->
+    g_result (go cf ins b) = GOk /\
+    (exists z : list oev,
+       g_events (go cf ins b) = match hdr with
+                                | [] => []
+                                | _ :: _ => [OOut hdr]
+                                end ++ z /\
+       shuffle
+         (emit cf p (length (titles expr sts []))
+            (run expr get sts (map (init_state expr) sts) (fst (ctxs_of_inputs cf ins 0))))
+         (errs (c_on_error cf) (N.to_nat (errs_of_inputs cf ins 0))) z).
+Proof. exact go_files_policy. Qed.
+Print Assumptions C06_policy_files.
+
+(* for one input the error count is that of ctxs_of_input *)
+Theorem C06_errs_one :
+  forall (cf : cfg) (fname : option str) (evs : list ev),
+    errs_of_inputs cf [(fname, evs)] 0 = snd (fst (ctxs_of_input cf fname evs)).
+Proof. exact errs_of_inputs_one. Qed.
+Print Assumptions C06_errs_one.
